@@ -233,6 +233,36 @@ pub fn run(ctx: &Ctx) {
             vs.push((v, x));
         }
     }
+    // integers the crate derives itself and hands to the encoder: EISA ids (any width the value
+    // needs) and the size of a data buffer
+    for id in ["PNP0000", "PNP0001", "PNP00FF", "PNP0100", "PNP0A03", "AAA0000", "ABC0000", "ZZZ0000", "ACP0010", "ZZZFFFF"] {
+        let v = crate::aml::term::eisa_value(id);
+        let mut e2 = [0u8; 9];
+        let n2 = expected(v, &mut e2);
+        let got = std::panic::catch_unwind(|| {
+            let mut b = Vec::new();
+            aml::EISAName::new(id).to_aml_bytes(&mut b);
+            b
+        });
+        evals += 1;
+        if let Ok(b) = got {
+            if b != e2[..n2] {
+                vs.push((v, Violation::new("C08", "integer", "int-encoding", "embedded:EISAName".into(), format!("id={} value={:#x} got={:02x?} want={:02x?}", id, v, b, &e2[..n2]))));
+            }
+        }
+    }
+    for n in [0usize, 1, 2, 255, 256, 257, 65_535, 65_536, 65_537, 65_791, 70_000] {
+        let mut e2 = [0u8; 9];
+        let n2 = expected(n as u64, &mut e2);
+        let mut b = Vec::new();
+        aml::BufferData::new(vec![0x5a; n]).to_aml_bytes(&mut b);
+        evals += 1;
+        let (_, used) = crate::props::c07::pkglen_decode(&b[1..]).unwrap_or((0, 1));
+        let size = &b[1 + used..b.len() - n];
+        if size != &e2[..n2] {
+            vs.push((n as u64, Violation::new("C08", "integer", "int-encoding", "embedded:BufferData-size".into(), format!("len={} got={:02x?} want={:02x?}", n, size, &e2[..n2]))));
+        }
+    }
     ctx.add_sample(json!({"value": "0x1122334455667788", "expect": "0e 88 77 66 55 44 33 22 11"}));
     ctx.add_sample(json!({"value": 256, "expect": "0b 00 01"}));
     // all u32 (thorough) / random u32 (quick)
